@@ -96,13 +96,15 @@ CHECKS = {
         design="DESIGN.md §6 C13"),
     "C14": dict(
         technique="Lean 4 proof (inductive invariant over every reachable state of an N-process transition system) + forced-schedule correspondence on the real jit.py",
-        text=("at_most_one_builder, marker_implies_complete, load_only_complete, reuse, timeout_bound, no_failure_all_succeed hold for every N, interleaving and fault choice at the granularity "
-              "of the file-system steps; the real compile_forms is run under a deterministic scheduler on all 2-process schedules up to the first marker and seeded 3-process schedules. "
+        text=("at_most_one_builder, exactly_one_builder (a failure-free run compiles and links exactly once), marker_implies_complete, load_only_complete (and the loaded module is the one the unique builder linked), reuse, timeout_bound, "
+              "no_failure_all_succeed hold for every N, interleaving and fault choice at the granularity of the file-system steps (incl. the temp-file / publish steps of the ready marker); the real compile_forms and compile_expressions are run under a "
+              "deterministic scheduler on all 2-process schedules up to the first marker and seeded 3-process schedules. "
               "Atomicity of OS steps and the import machinery are trusted (partial)."),
         design="DESIGN.md §6 C14, App. B"),
     "C15": dict(
         technique="Lean 4 proof (same transition system with fail/kill/retry transitions) + fault injection on the real jit.py",
-        text=("fail_releases_lock, kill_safe, marker_after_compile, globals_restored hold in every reachable state with any faults; every fail/kill point × later request is replayed on the real code, "
+        text=("fail_releases_lock, kill_safe, marker_after_compile, globals_restored, no_poison (no request ever meets an existing marker or temp file; no lock ⇒ no marker) hold in every reachable state with any faults, "
+              "the fault domain including every step of writing and publishing the ready marker; every modelled fail/kill point × later request is replayed on the real code (compile_forms and compile_expressions), "
               "checking exception, directory contents, root logger handlers, stdout, and the next request's outcome."),
         design="DESIGN.md §6 C15, App. B"),
     "C16": dict(
